@@ -190,10 +190,15 @@ func randBop(rng *prng, alpha []bop) bop {
 // genBuffer: all sequences over the alphabet up to the given depth, then n random longer ones.
 func genBuffer(w *bufio.Writer, rng *prng, depth, n int, invalidRunes bool) {
 	alpha := bufAlphabet(invalidRunes)
+	// the exhaustive part is partitioned over the 8 shards by the low bits of the shard seed
+	shard, idx := int(curSeed%8), 0
 	var rec func(prefix []bop, d int)
 	rec = func(prefix []bop, d int) {
 		if d == 0 {
-			fmt.Fprintln(w, runManual(prefix))
+			idx++
+			if idx%8 == shard {
+				fmt.Fprintln(w, runManual(prefix))
+			}
 			return
 		}
 		for _, o := range alpha {
@@ -205,7 +210,7 @@ func genBuffer(w *bufio.Writer, rng *prng, depth, n int, invalidRunes bool) {
 	}
 	// capacities beyond the 64 KiB above which free() drops a printer's buffer: a few fixed
 	// shapes only (an array of that size is costly in the memory-level model)
-	if !invalidRunes {
+	if !invalidRunes && shard == 0 {
 		for _, pre := range [][]bop{{}, {{k: "w", s: "a"}}, {{k: "w", s: "a\n"}}, {{k: "w", s: ""}}, {{k: "m", n: 1}, {k: "w", s: "s"}}, {{k: "w", s: "\xe2"}}} {
 			for _, mid := range []bop{{k: "reset"}, {k: "take"}, {k: "takeb"}, {k: "len"}, {k: "rs"}, {k: "m", n: 1}} {
 				for _, post := range [][]bop{{{k: "w", s: "x"}}, {{k: "m", n: 0}, {k: "w", s: "y"}, {k: "len"}}} {
